@@ -798,4 +798,24 @@ theorem C20_fields_collide :
     verImpl ⟨[], [], [⟨[⟨formTypeVar, [[0x74]]⟩, ⟨[0x61], [[0x62]]⟩, ⟨[0x63], []⟩]⟩]⟩ := by
   simp [verImpl, mergeSort_pair, fieldLe, Form.formType, formTypeVar, lexLe, renderForm,
     Form.dataFields, renderField, sortStrings, renderFeat, lt]
+
+/-- carried to the `ver` attribute: if the hash and the base64 step do not collide on the two
+pre-images (the assumption XEP-0115 makes of its hash function), equal `ver` strings of two
+feature-only infos with `<`-free features mean the same feature multiset -/
+theorem C20_hash_features_injective (hash b64 : Bytes → Bytes) (f₁ f₂ : List Bytes)
+    (hcf : ∀ x y, b64 (hash x) = b64 (hash y) → x = y)
+    (h₁ : ∀ f ∈ f₁, LtFree f) (h₂ : ∀ f ∈ f₂, LtFree f)
+    (h : hashStr hash b64 ⟨[], f₁, []⟩ = hashStr hash b64 ⟨[], f₂, []⟩) : f₁.Perm f₂ := by
+  apply C20_features_injective f₁ f₂ h₁ h₂
+  apply hcf
+  simpa [hashStr, appendHash] using h
+
+/-- … and the identities likewise -/
+theorem C20_hash_identities_injective (hash b64 : Bytes → Bytes) (a b : List Identity)
+    (hcf : ∀ x y, b64 (hash x) = b64 (hash y) → x = y)
+    (ha : ∀ i ∈ a, IdClean i) (hb : ∀ i ∈ b, IdClean i)
+    (h : hashStr hash b64 ⟨a, [], []⟩ = hashStr hash b64 ⟨b, [], []⟩) : a.Perm b := by
+  apply C20_identities_injective a b ha hb
+  apply hcf
+  simpa [hashStr, appendHash] using h
 end XmppModel.Props.C20
